@@ -719,9 +719,10 @@ Definition tx_open_start (a : open_args) (ck : N * N) (c : cur) s : opres + pend
     else inl (ResStatus ERR_INVAL)
   end.
 
-(* opOpen, first critical section *)
-Definition do_open (g : N) (t : Z) (c : cur) (a : open_args) s : state * reply :=
-  let s := enter t s in
+(* opOpen, first critical section. Leaves scheduled for closing by enter() are
+   closed by enter() itself; those scheduled afterwards (reinitialisation of an
+   unconfirmed owner) wait in the operation's leavesToClose until it returns. *)
+Definition do_open_body (g : N) (c : cur) (a : open_args) s : state * reply :=
   if negb (confirmed_client (oa_client a) s) then (s, RpOp (ResStatus ERR_STALE_CLIENTID))
   else
     let ck := (oa_client a, oa_owner a) in
@@ -747,6 +748,11 @@ Definition do_open (g : N) (t : Z) (c : cur) (a : open_args) s : state * reply :
           end
         end
     end.
+Definition do_open (g : N) (t : Z) (c : cur) (a : open_args) s : state * reply :=
+  let s := enter t s in
+  let ll0 := st_ll s in
+  let '(s, rp) := do_open_body g c a (w_ll s []) in
+  (w_ll s (st_ll s ++ ll0), rp).
 
 (* opOpen, second critical section: VirtualOpenChild / VirtualOpenSelf returned *)
 Definition do_open_ret (g : N) (t : Z) (res : oresult) s : state * reply :=
@@ -761,15 +767,19 @@ Definition do_open_ret (g : N) (t : Z) (res : oresult) s : state * reply :=
       let r := ResStatus st in
       (oos_complete_tx ck seq (mkCached KOpen r None) s, RpOp r)
     | OrOk h =>
-      let s := w_ll s (mkCall h true acc :: st_ll s) in
       let confirmed := match find_oos ck s with Some o => oo_confirmed o | None => false end in
       match prev with
       | Some other =>
-        let s := oofs_upgrade other acc s in
+        (* CLAIM_PREVIOUS: VirtualOpenSelf was called on the leaf of the open-owner file *)
+        let s := match find_oofs other s with
+                 | Some o => oofs_upgrade other acc (w_ll s (mkCall (of_handle o) true acc :: st_ll s))
+                 | None => panic s
+                 end in
         let sq := match find_oofs other s with Some o => of_seq o | None => 0 end in
         let r := ResOpen sq other false in
         (oos_complete_tx ck seq (mkCached KOpen r None) s, RpOp r)
       | None =>
+        let s := w_ll s (mkCall h true acc :: st_ll s) in
         match find_by (fun o => oofs_of_owner ck o && (of_handle o =? h)) (st_oofs s) with
         | Some o =>
           let s := oofs_upgrade (of_other o) acc s in
@@ -1097,7 +1107,10 @@ Record output := mkOut { o_reply : reply; o_calls : list leafcall }.
 Definition step (s : state) (e : event) : state * output :=
   let '(s1, rp) :=
     match e with
-    | EReq g t fh r => do_req g t fh r s
+    | EReq g t fh r =>
+        (* a goroutine has one request outstanding: not enabled while g is parked *)
+        if existsb (fun p => fst p =? g) (st_pending s) then (s, RpOp (ResStatus ERR_RESOURCE))
+        else do_req g t fh r s
     | EOpenRet g t res => do_open_ret g t res s
     | EIoRet g t st => do_io_ret g t st s
     end in
